@@ -370,7 +370,7 @@ Fixpoint inner_loop (fuel : nat) (w : W) (lc : line_cfg) : res (W * bool) :=
           | BreakInvalid => inner_loop f (restore w) lc
           | Fits => inner_loop f (set_br (mark_best w [cand]) (mark_word_unused (w_br w))) lc
           | EndLine => Ok (mark_best w [cand], true)
-          | Truncated => Ok ((if has_best w then w else mark_best w []), true)
+          | Truncated => Ok ((if has_best w then w else mark_best (restore w) []), true)
           | NewLineBeforeBreak =>
               let w := restore w in
               Ok (set_br w (mark_grapheme_unused (mark_word_unused (w_br w))), false)
@@ -404,7 +404,7 @@ Fixpoint outer_loop (fuel : nat) (w : W) (lc : line_cfg) : res (W * bool) :=
               if snd opt then Ok (w, false) else outer_loop f w lc
           | EndLine => Ok (mark_best w [cand], true)
           | Truncated =>
-              let w := if has_best w then w else mark_best w [] in
+              let w := if has_best w then w else mark_best (restore w) [] in
               if policy_never w then Ok (w, true) else graphemes w
           | NewLineBeforeBreak =>
               let w := restore w in
